@@ -1,9 +1,10 @@
 \* random programs of <= 12 commands over the full menu (tlc -simulate -depth 25); the check
-\* sets Lat / AppendKw / KwPermitted to what the backend under test exhibits
+\* sets LatOor / LatRec / AppendKw / KwPermitted to what the backend under test exhibits
 SPECIFICATION Spec
 CONSTANTS
   KwPermitted = FALSE
-  Lat = {"lenient"}
+  LatOor = {"lenient"}
+  LatRec = {"lenient"}
   AppendKw = {"keep"}
   Inits = {"empty", "std"}
   MaxCmds = 12
@@ -15,4 +16,10 @@ INVARIANT UidsBelowNext
 INVARIANT NoRecentStored
 INVARIANT KwOnlyIfAllowed
 INVARIANT ContentHasOneDate
+PROPERTY UidsAscend
+PROPERTY RefusedInert
+PROPERTY MoveIsCopyStoreExpunge
+PROPERTY ExpungeExact
+PROPERTY FetchSeenExact
+PROPERTY StoreExact
 CHECK_DEADLOCK FALSE
